@@ -30,3 +30,21 @@ Print Assumptions C07_late_frames_ignored.
 Theorem C07_tunnel_survives : forall ls t, trun tun0 ls = Some t -> t_err t = false.
 Proof. exact no_rpc_event_kills_the_tunnel. Qed.
 Print Assumptions C07_tunnel_survives.
+
+(* code shape, regenerated from the source on every run (see theories/SkelFinish.v) *)
+From Coq Require Import String.
+From GT Require Import SkelFinish.
+From GTgen Require Import Params.
+Local Open Scope string_scope.
+Theorem C07_client_finish_shape : skel_tunnelClientStream_finishStream =
+  ["call done.CompareAndSwap"; "defer call cancel"; "call ch.removeStream"; "defer call receiver.close"; "call metaMu.Lock"; "defer call metaMu.Unlock"; "set trailers"; "set gotHeaders"; "close gotHeadersSignal"; "close doneSignal"].
+Proof. exact tunnelClientStream_finishStream_shape. Qed.
+Print Assumptions C07_client_finish_shape.
+Theorem C07_client_cancel_shape : skel_tunnelClientStream_cancelStream =
+  ["call finishStream"; "call receiver.cancel"; "go func"].
+Proof. exact tunnelClientStream_cancelStream_shape. Qed.
+Print Assumptions C07_client_cancel_shape.
+Theorem C07_server_finish_shape : skel_tunnelServerStream_finishStream =
+  ["call finishErr.CompareAndSwap"; "call finishErr.Load"; "call cancel"; "call svr.removeStream"; "call halfClose"; "call writeMu.Lock"; "defer call writeMu.Unlock"; "set sentHeaders"; "set headers"; "go func"; "set sentHeaders"; "set headers"; "set closed"; "set trailers"].
+Proof. exact tunnelServerStream_finishStream_shape. Qed.
+Print Assumptions C07_server_finish_shape.
